@@ -185,6 +185,21 @@ def headerLines : Dic → Bytes
 /-- the text `sendHeaders()` writes -/
 def headerBlock (command : Bytes) (h : Dic) : Bytes := command ++ crlf ++ headerLines h ++ crlf
 
+/-- `String::split(char)` with a one-byte separator -/
+def splitByte (sep : UInt8) (s : Bytes) : List Bytes :=
+  let r := s.foldr (fun c (acc : Bytes × List Bytes) =>
+      if c == sep then ([], acc.1 :: acc.2) else (c :: acc.1, acc.2)) ([], [])
+  r.1 :: r.2
+
+/-- `readBody`: the body is chunked when the last transfer coding is `chunked`, names compared without regard to case -/
+def teChunked (te : Bytes) : Bool :=
+  trimmed ((splitByte 44 (lowerAscii te)).getLast?.getD []) == sChunked
+
+/-- `sendHeaders` (07183e2): a message whose last transfer coding is `chunked` is framed by its chunks alone, a
+Content-Length that `put()`, `putFile()` or the owner set is removed before the header block goes out -/
+def sentHeaders (h : Dic) : Dic :=
+  if teChunked (header h sTransferEncoding) then setHeader h sContentLength [] else h
+
 /-- `_chunked = !header("Content-Length").ok()` -/
 def isChunked (h : Dic) : Bool := (header h sContentLength).isEmpty
 
@@ -215,16 +230,23 @@ def writeFile (chunked : Bool) (blk rblk : Nat) (content : Bytes) : Bytes :=
   writeFileLoop chunked blk rblk content.length content
 
 /-- `HttpMessage::write()` of a message whose body is in memory: headers, then the body -/
+def lastChunk : Bytes := [48, 13, 10, 13, 10]
+
+/-- the last chunk with which `write()` / `putFile()` end a chunked message they wrote as a whole (c720b96) -/
+def endOf (h : Dic) : Bytes := if teChunked (header h sTransferEncoding) then lastChunk else []
+
 def serializeWith (blk : Nat) (m : Msg) : Bytes :=
-  headerBlock m.command m.headers ++ writeBody (isChunked m.headers) blk m.body
+  headerBlock m.command (sentHeaders m.headers) ++ writeBody (isChunked (sentHeaders m.headers)) blk m.body ++ endOf m.headers
 
 def serialize (m : Msg) : Bytes := serializeWith sendBlock m
 
-def lastChunk : Bytes := [48, 13, 10, 13, 10]
+/-- `putFile` writing a message as a whole: the headers, the file in `rblk`-byte reads, the last chunk of a chunked message -/
+def serializeFile (blk rblk : Nat) (command : Bytes) (h : Dic) (content : Bytes) : Bytes :=
+  headerBlock command (sentHeaders h) ++ writeFile (isChunked (sentHeaders h)) blk rblk content ++ endOf h
 
 /-- a handler streaming `parts` through `write(part)` one after the other (headers first) -/
 def serializeStream (blk : Nat) (command : Bytes) (h : Dic) (parts : List Bytes) (fin : Bool) : Bytes :=
-  headerBlock command h ++ (parts.map (writeBody (isChunked h) blk)).flatten ++ (if fin then lastChunk else [])
+  headerBlock command (sentHeaders h) ++ (parts.map (writeBody (isChunked (sentHeaders h)) blk)).flatten ++ (if fin then lastChunk else [])
 
 /-! ## the connection as the reader sees it -/
 
@@ -346,16 +368,6 @@ def readChunkedLoop (rblk : Nat) : Nat → Inp → Nat → List Bytes → List B
         else if two != [13, 10] then (acc', { i3 with closed := true })   -- no CRLF after the chunk data: the framing is lost
         else if m = 0 then (acc', i3)
         else readChunkedLoop rblk f i3 size' acc'
-
-/-- `String::split(char)` with a one-byte separator -/
-def splitByte (sep : UInt8) (s : Bytes) : List Bytes :=
-  let r := s.foldr (fun c (acc : Bytes × List Bytes) =>
-      if c == sep then ([], acc.1 :: acc.2) else (c :: acc.1, acc.2)) ([], [])
-  r.1 :: r.2
-
-/-- `readBody`: the body is chunked when the last transfer coding is `chunked`, names compared without regard to case -/
-def teChunked (te : Bytes) : Bool :=
-  trimmed ((splitByte 44 (lowerAscii te)).getLast?.getD []) == sChunked
 
 /-- the Content-Length check of `readBody`: 1 to 10 decimal digits whose value fits an `int` -/
 def clValid (cl : Bytes) : Bool :=
@@ -539,7 +551,7 @@ def clientCommand (method path host : Bytes) (port : Nat) : Bytes :=
 def clientSend (method path host : Bytes) (port : Nat) (h : Dic) (body : Bytes) : Dic × Bytes :=
   if teChunked (header h sTransferEncoding) then
     let h' := clientChunkedHeaders h
-    (h', headerBlock (clientCommand method path host port) h' ++ writeBody (isChunked h') sendBlock body ++ lastChunk)
+    (h', serializeWith sendBlock { command := clientCommand method path host port, headers := h', body := body })
   else
     let m := clientMsg method path host port true h body
     (m.headers, serialize m)
@@ -548,10 +560,10 @@ def clientSend (method path host : Bytes) (port : Nat) (h : Dic) (body : Bytes) 
 def clientSendFile (method path host : Bytes) (port : Nat) (h : Dic) (content : Bytes) : Dic × Bytes :=
   if teChunked (header h sTransferEncoding) then
     let h' := clientChunkedHeaders h
-    (h', headerBlock (clientCommand method path host port) h' ++ writeFile (isChunked h') sendBlock recvBlock content ++ lastChunk)
+    (h', serializeFile sendBlock recvBlock (clientCommand method path host port) h' content)
   else
     let h' := setHeader h sContentLength (utoa content.length)
-    (h', headerBlock (clientCommand method path host port) h' ++ writeFile (isChunked h') sendBlock recvBlock content)
+    (h', serializeFile sendBlock recvBlock (clientCommand method path host port) h' content)
 
 /-! ## `HttpResponse::setCode`, `HttpServer::serve(Socket)` post-processing, `putFile` -/
 
@@ -818,7 +830,7 @@ def serveOne (blk rblk : Nat) (optionsDefault : Bool) (q : Request) (p : Plan) (
       let h := if hasHeader h sCacheControl then h else setHeader h sCacheControl sCacheValue
       let whole (code : Nat) (h : Dic) : Served :=
         let h := setHeader h sContentLength (utoa n)
-        { called := true, wire := headerBlock (statusLine proto code) h ++ writeFile (isChunked h) blk rblk content, keep := keep }
+        { called := true, wire := serializeFile blk rblk (statusLine proto code) h content, keep := keep }
       if hasHeader q.headers sRange then
         let range := header q.headers sRange
         if startsWith range sBytesEq ∧ ¬ range.contains 44 then
@@ -827,8 +839,7 @@ def serveOne (blk rblk : Nat) (optionsDefault : Bool) (q : Request) (p : Plan) (
           | some (b', e') =>
             let h := setHeader h sContentLength (utoa (e' - b' + 1))
             let h := setHeader h sContentRange (contentRangeText b' e' n)
-            { called := true, wire := headerBlock (statusLine proto 206) h ++ writeFile (isChunked h) blk rblk (fileSlice content b' e'),
-              keep := keep }
+            { called := true, wire := serializeFile blk rblk (statusLine proto 206) h (fileSlice content b' e'), keep := keep }
           | none =>
             let h := setHeader h sContentRange (contentRangeStar n)
             let h := setHeader h sContentLength [48]
